@@ -185,6 +185,38 @@ def reaches(fn, a, b):
     return pb[0] in seen
 
 
+def truth_gate(fn, is_expr, want):
+    """edges on which the boolean expression recognised by is_expr(node) is known to be `want`: the expression itself as a
+    condition (also under `!`, which cond_facts removes), or compared with a boolean / 0 / 1 literal"""
+    def pred(atom, pol):
+        n = fn.N(atom)
+        if n['k'] == 'BinaryOperator' and n.get('op') in ('==', '!='):
+            for x, c in ((n['ch'][0], n['ch'][1]), (n['ch'][1], n['ch'][0])):
+                cv = fn.const_value(c)
+                if cv in (0, 1) and is_expr(fn.strip(x)):
+                    val = (pol == (n['op'] == '==')) == bool(cv)        # value the expression has on this edge
+                    return val == want
+            return False
+        return is_expr(fn.strip(atom)) and pol == want
+    return fn.gate_edges(pred)
+
+
+def between(fn, a, x, b):
+    """node x is evaluated on some path that leaves a and arrives at b for the first time (paths that pass b and come back,
+    e.g. through a loop's back edge, do not count)"""
+    pa, px, pb = fn.last_point_of(a), fn.point_of(x), fn.point_of(b)
+    if pa is None or px is None or pb is None:
+        return False
+    if pa[0] == pb[0] and pa[1] < pb[1]:
+        return px[0] == pa[0] and pa[1] < px[1] < pb[1]
+    if px[0] == pa[0]:
+        return px[1] > pa[1]
+    if px[0] == pb[0]:
+        return px[1] < pb[1]
+    first = set(fn.reachable_blocks(start=pa[0], cut_blocks=[pb[0]]))
+    return px[0] in first and reaches(fn, x, b)
+
+
 # ---------------------------------------------------------------------------------------
 def obj_field(fn, call):
     """template-stripped field at the end of the object expression's access path of a member call / member operator call"""
